@@ -247,6 +247,7 @@ type tcase struct {
 	actual     string // device state at the start (device vocabulary)
 	multiStep  bool
 	rollbackOf map[string]string // intermediate device state -> rollback event (from the property's mechanism)
+	hist       string            // history scenarios: what the same client did before this request ("" = fresh client)
 }
 
 func (c tcase) id() string {
@@ -254,16 +255,23 @@ func (c tcase) id() string {
 	if c.actual != c.m.deviceStateFor(c.src) {
 		s += "(device in " + c.actual + ")"
 	}
+	if c.hist != "" {
+		s += " after " + c.hist
+	}
 	return s
 }
 
 // class is the witness used in clause signatures: stale requests (the device is
 // not in the claimed source) collapse into one class per event.
 func (c tcase) class() string {
-	if c.actual != c.m.deviceStateFor(c.src) {
-		return fmt.Sprintf("%s/%s/stale-source", c.m.name, c.evt)
+	h := ""
+	if c.hist != "" {
+		h = ":after=" + c.hist
 	}
-	return fmt.Sprintf("%s/%s/%s", c.m.name, c.evt, c.src)
+	if c.actual != c.m.deviceStateFor(c.src) {
+		return fmt.Sprintf("%s/%s/stale-source", c.m.name, c.evt) + h
+	}
+	return fmt.Sprintf("%s/%s/%s", c.m.name, c.evt, c.src) + h
 }
 
 var o2dst = map[string]string{"CONFIGURE": "CONFIGURED", "START": "RUNNING", "STOP": "CONFIGURED", "RESET": "STANDBY", "EXIT": "DONE"}
@@ -456,6 +464,104 @@ func oracle(r *result) (out []vrt.Violation) {
 }
 
 // ---------------------------------------------------------------------------
+// histories: several requests through ONE client and ONE transitioner, as in the
+// life of a task (the statement speaks of "a transition request", the executor
+// serves many with the same objects: whatever one request leaves behind in them
+// must not colour the report of the next one)
+// ---------------------------------------------------------------------------
+
+// what the task did before the requests under test: every device step done (handbook order)
+var walks = [][]string{
+	{}, {"CONFIGURE"}, {"CONFIGURE", "START"}, {"CONFIGURE", "RESET"}, {"CONFIGURE", "START", "STOP"}, {"CONFIGURE", "START", "STOP", "RESET"},
+}
+
+// eventsFrom: the requests the task state machine (handbook) allows in an O² state
+func eventsFrom(src string) (out []string) {
+	for _, p := range validPairs {
+		if p[1] == src {
+			out = append(out, p[0])
+		}
+	}
+	return
+}
+
+// begin: a new request arrives at the same device; the bookkeeping of the oracle starts afresh, the device stays where it is
+func (d *simdevice) begin(c tcase, nOutcomes int) {
+	d.nOutcomes, d.rollbackSet = nOutcomes, c.rollbackOf
+	d.calls, d.steps, d.transport, d.known, d.firstBogus = 0, nil, false, false, ""
+	d.lastEvt, d.lastDone, d.lastFrom, d.lastReply, d.rolledBack = "", false, "", nil, false
+}
+
+func history(name, doc string, m *machine) *vrt.Scenario {
+	var results []*result
+	var complete bool
+	body := func() {
+		results, complete = nil, false
+		walk := walks[vrt.ChooseFree(len(walks), "walk")]
+		d := &simdevice{m: m, state: m.deviceStateFor("STANDBY")}
+		lg := logrus.New()
+		lg.SetOutput(io.Discard)
+		rpc := executorcmd.NewClientForVerif(d, m.mode, logrus.NewEntry(lg).WithField("id", "task-c16"))
+		var hist []string
+		commit := func(evt string, nOutcomes int) *result {
+			// the core addresses the task in the state it was last told (truthfully) the task is in
+			c := mkcase(m, evt, m.image[d.state], d.state)
+			c.hist = strings.Join(hist, "+")
+			d.begin(c, nOutcomes)
+			cmd := executorcmd.NewLocalExecutorCommand_Transition(rpc.Transitioner, uid.New(), nil, c.src, c.evt, c.dst, nil)
+			cmd.Arguments = map[string]string{"some.key": "some value"}
+			r := &result{c: c}
+			r.commitState, r.commitErr = cmd.Commit()
+			resp := cmd.PrepareResponse(r.commitErr, r.commitState, "task-c16")
+			r.state, r.failed = resp.CurrentState, resp.Err() != nil
+			r.finished = true
+			snap := *d
+			r.d = &snap
+			results = append(results, r)
+			tag := evt
+			if r.failed {
+				tag += "(failed)"
+			}
+			hist = append(hist, tag)
+			vrt.Logf("%s steps=[%s] bogus=%q device=%s reported=%q failed=%v", c.id(), strings.Join(d.steps, ", "), d.firstBogus, d.state, r.state, r.failed)
+			return r
+		}
+		for _, evt := range walk {
+			if r := commit(evt, 1); r.failed {
+				return // judged like every other request, but it is not the history that was asked for
+			}
+		}
+		// two requests in a row with every outcome of every device step; the second one (any request
+		// the handbook allows in the state the device is really in: a retry after a rolled back attempt,
+		// the next step after a success, EXIT after an error) only if the core can know that state
+		for k := 0; k < 2; k++ {
+			src := m.image[d.state]
+			evs := eventsFrom(src)
+			if len(evs) == 0 || (len(results) > 0 && results[len(results)-1].d.transport) {
+				break
+			}
+			commit(evs[vrt.ChooseFree(len(evs), "event")], 6)
+		}
+		complete = true
+	}
+	return &vrt.Scenario{Name: name, Prop: "C16", Doc: doc, Body: body,
+		Setup: func() { logrus.SetOutput(io.Discard) },
+		Check: func(x *vrt.Exec) (out []vrt.Violation) {
+			for _, r := range results {
+				if r.finished {
+					out = append(out, oracle(r)...)
+				}
+			}
+			return out
+		},
+		NonTrivial:  func(x *vrt.Exec) bool { return complete && len(results) > 0 && results[len(results)-1].d.calls > 0 },
+		Quick:       vrt.Bounds{Dev: 0, Seconds: 120},
+		Thorough:    vrt.Bounds{Dev: 0, Seconds: 600},
+		PanicClause: "panic", DeadlockClause: "transition-hangs",
+	}
+}
+
+// ---------------------------------------------------------------------------
 // state map (Direct enumeration)
 // ---------------------------------------------------------------------------
 
@@ -496,6 +602,8 @@ func main() {
 		scenario("direct-anysrc", "DIRECT: every event x every claimed source x every actual device state (all but the pairs of the main scenario)", anyCases(directMachine), false, 6),
 		scenario("reply-matrix-fairmq", "FAIRMQ single-step transitions: every combination of reply fields (ok, trigger, event, state) and the empty reply", singleStepCases(fairmqMachine), true, 1),
 		scenario("reply-matrix-direct", "DIRECT transitions: every combination of reply fields (ok, trigger, event, state) and the empty reply", singleStepCases(directMachine), true, 1),
+		history("fairmq-history", "FAIRMQ, one client for the whole life of the task: a walk of successful transitions (none, CONFIGURE, CONFIGURE START, CONFIGURE RESET, CONFIGURE START STOP, CONFIGURE START STOP RESET), then two requests in a row (each: any request allowed in the device's real state), every outcome of every device step of both", fairmqMachine),
+		history("direct-history", "DIRECT, one client for the whole life of the task: the same walks, then two requests in a row, every outcome of every device step of both", directMachine),
 		statemap(),
 	})
 }
